@@ -822,10 +822,12 @@ host_write_d	(SF_PRIVATE *psf, const double *ptr, sf_count_t len)
 static sf_count_t
 replace_read_d2s	(SF_PRIVATE *psf, short *ptr, sf_count_t len)
 {	BUF_UNION	ubuf ;
+	void		(*convert) (const double *, int, short *, double) ;
 	int			bufferlen, readcount ;
 	sf_count_t	total = 0 ;
 	double		scale ;
 
+	convert = (psf->add_clipping) ? d2s_clip_array : d2s_array ;
 	bufferlen = ARRAY_LEN (ubuf.dbuf) ;
 	scale = (psf->float_int_mult == 0) ? 1.0 : 0x7FFF / psf->float_max ;
 
@@ -839,7 +841,7 @@ replace_read_d2s	(SF_PRIVATE *psf, short *ptr, sf_count_t len)
 
 		d2bd_read (ubuf.dbuf, bufferlen) ;
 
-		d2s_array (ubuf.dbuf, readcount, ptr + total, scale) ;
+		convert (ubuf.dbuf, readcount, ptr + total, scale) ;
 		total += readcount ;
 		if (readcount < bufferlen)
 			break ;
@@ -852,10 +854,12 @@ replace_read_d2s	(SF_PRIVATE *psf, short *ptr, sf_count_t len)
 static sf_count_t
 replace_read_d2i	(SF_PRIVATE *psf, int *ptr, sf_count_t len)
 {	BUF_UNION	ubuf ;
+	void		(*convert) (const double *, int, int *, double) ;
 	int			bufferlen, readcount ;
 	sf_count_t	total = 0 ;
 	double		scale ;
 
+	convert = (psf->add_clipping) ? d2i_clip_array : d2i_array ;
 	bufferlen = ARRAY_LEN (ubuf.dbuf) ;
 	scale = (psf->float_int_mult == 0) ? 1.0 : 2147483648.0f / psf->float_max ;
 
@@ -869,7 +873,7 @@ replace_read_d2i	(SF_PRIVATE *psf, int *ptr, sf_count_t len)
 
 		d2bd_read (ubuf.dbuf, bufferlen) ;
 
-		d2i_array (ubuf.dbuf, readcount, ptr + total, scale) ;
+		convert (ubuf.dbuf, readcount, ptr + total, scale) ;
 		total += readcount ;
 		if (readcount < bufferlen)
 			break ;
